@@ -4,6 +4,7 @@ import (
 	"fmt"
 	"go/token"
 	"go/types"
+	"strings"
 
 	"golang.org/x/tools/go/ssa"
 )
@@ -327,6 +328,11 @@ func runC01(c *Ctx) {
 	if f := p.Func("agent/utils.postResponseWithRetries"); f != nil {
 		c06Fence(c, p, "C01.X", f)
 	}
+	c.Rule("C01.T", "the body is not cut on its way: the shim's splice passes on every byte it read (= C05.M, C14.S); the stand-alone proxy arms no connection deadline (= C04.P); a worker's request does not end with the polling context (= C20.W)", 14)
+	ruleNoServerDeadlines(c, p, "C01.T")
+	c.Borrow(runC05, "C05.M", "C01.T", func(k string) bool { return strings.HasPrefix(k, "splice:") })
+	c.Borrow(runC14, "C14.S", "C01.T", func(k string) bool { return strings.HasPrefix(k, "splice:") })
+	c.Borrow(runC20, "C20.W", "C01.T", nil)
 	c.Rule("C01.B", "App Engine store: multi-part bodies are recorded and read back in part order (= C19.K)", 2)
 	ruleBlobParts(c, p, "C01.B")
 	c.Rule("C01.C", "App Engine proxy: the GET response cache uses one injective key of (user, URL); memcache keys of stored requests/responses are injective in (backend ID, request ID) (= C17.S, C19.S)", 11)
